@@ -240,6 +240,56 @@ func genHmtx(t *rapid.T, e *extremes) *hmtxCase {
 // half of that (plus floating point noise).
 var caretTol = math.Atan(1.0/32767)/2*1.02 + 1e-12
 
+// caretGap returns the angular distance between the two representable
+// directions that enclose the direction pi/2+angle (1 unit in the last
+// place of the caretSlopeRise/caretSlopeRun pair at that angle).  By the
+// symmetries of the square [-32767, 32767]^2 the direction is reduced to a
+// slope x in [0, 1]; the representable slopes there are the Farey sequence
+// of order 32767, whose neighbours of x are found by a Stern-Brocot descent.
+func caretGap(angle float64) float64 {
+	const N = 32767
+	a, b := math.Abs(math.Cos(angle+math.Pi/2)), math.Abs(math.Sin(angle+math.Pi/2))
+	if a > b {
+		a, b = b, a
+	}
+	x := a / b // 0 <= x <= 1
+	lp, lq, hp, hq := 0.0, 1.0, 1.0, 1.0
+	for {
+		moved := false
+		// advance the lower bound by k mediants while it stays <= x
+		if k := math.Floor((N - lq) / hq); k >= 1 {
+			if den := hp - x*hq; den > 0 {
+				k = math.Min(k, math.Floor((x*lq-lp)/den))
+			}
+			if k >= 1 {
+				lp, lq, moved = lp+k*hp, lq+k*hq, true
+			}
+		}
+		// advance the upper bound while it stays >= x
+		if k := math.Floor((N - hq) / lq); k >= 1 {
+			if den := x*lq - lp; den > 0 {
+				k = math.Min(k, math.Floor((hp-x*hq)/den))
+			}
+			if k >= 1 {
+				hp, hq, moved = hp+k*lp, hq+k*lq, true
+			}
+		}
+		if !moved {
+			break
+		}
+	}
+	return math.Atan2(hp, hq) - math.Atan2(lp, lq)
+}
+
+// caretOK: the stored slope must be one of the two representable directions
+// next to the requested one, and never further away than rounding to the
+// nearest direction can be anywhere on the circle.
+func caretOK(got, want float64) (diff, tol float64, ok bool) {
+	diff = angleDiff(got, want)
+	tol = math.Min(caretTol, caretGap(want)+1e-12)
+	return diff, tol, diff <= tol
+}
+
 // hheaDerived holds the derived hhea fields computed from the definitions
 // in the OpenType specification ("hhea" chapter); ok* tell whether the
 // definition yields a value the int16 field can hold.
@@ -339,9 +389,9 @@ func checkHmtx(t *rapid.T, c *hmtxCase, e *extremes) {
 		failf(t, "caretSlopeRise = caretSlopeRun = 0\ncase: %s", c)
 	}
 	rawAngle := math.Atan2(float64(rise), float64(run)) - math.Pi/2
-	if d := angleDiff(rawAngle, info.CaretAngle); d > caretTol {
+	if d, tol, ok := caretOK(rawAngle, info.CaretAngle); !ok {
 		failf(t, "caret slope rise=%d run=%d is the angle %v, input %v: off by %.3g rad > %.3g\ncase: %s",
-			rise, run, rawAngle, info.CaretAngle, d, caretTol, c)
+			rise, run, rawAngle, info.CaretAngle, d, tol, c)
 	}
 
 	// derived fields
@@ -518,7 +568,7 @@ func compareHheaScalars(t *rapid.T, c *hmtxCase, dec *hmtx.Info) {
 	if dec.Ascent != info.Ascent || dec.Descent != info.Descent || dec.LineGap != info.LineGap || dec.CaretOffset != info.CaretOffset {
 		failf(t, "decoded ascent/descent/lineGap/caretOffset = %d/%d/%d/%d\ncase: %s", dec.Ascent, dec.Descent, dec.LineGap, dec.CaretOffset, c)
 	}
-	if d := angleDiff(dec.CaretAngle, info.CaretAngle); d > caretTol || math.IsNaN(dec.CaretAngle) {
-		failf(t, "decoded CaretAngle %v, input %v: off by %.3g rad > %.3g\ncase: %s", dec.CaretAngle, info.CaretAngle, d, caretTol, c)
+	if d, tol, ok := caretOK(dec.CaretAngle, info.CaretAngle); !ok || math.IsNaN(dec.CaretAngle) {
+		failf(t, "decoded CaretAngle %v, input %v: off by %.3g rad > %.3g\ncase: %s", dec.CaretAngle, info.CaretAngle, d, tol, c)
 	}
 }
